@@ -969,13 +969,93 @@ def check_adjacency_implies_overlap(ctx, f):
     ctx.floor("R-SIB", "functions merging on adjacency in chain.rs", nadj, 3)
 
 
+_UNTRUSTED_SOURCES = {"from_str", "take_from", "parse", "from_str_radix", "take_opt_from", "from_v4_str", "from_v6_str"}
+_MONOTONE = re.compile(r"^((in)?to_[ui]\d+|to_bits|as_[ui]\d+|into_inner|get)$")
+
+
+def ident(t):
+    """Identity of a value: its rendering plus the program points of the calls in it (two calls of one parser with the same
+    arguments render alike but are different values)."""
+    t = strip_deep(t)
+    return (render(t), tuple(x[3].get("bb") for x in walk(t) if x[0] == "call" and isinstance(x[3], dict)))
+
+
+def order_core(t):
+    """The value under order-preserving conversions (`.0` of a newtype, `into_u32()`, widening casts)."""
+    t = strip_deep(t)
+    while True:
+        if t[0] == "cast":
+            t = strip_deep(t[1])
+        elif t[0] == "call" and len(t[2]) == 1 and _MONOTONE.match(_info(t).get("name") or ""):
+            t = strip_deep(t[2][0])
+        elif t[0] == "field" and str(t[2]) == "0" and strip_deep(t[1])[0] not in ("variant", "agg") and len(t) > 3 and t[3] and \
+                not str(t[3]).startswith("("):
+            t = strip_deep(t[1])
+        else:
+            return t
+
+
+def ordered_edges(body, lo, hi):
+    """Edges of `body` on which `lo <= hi` is established, whatever the test is called: any of the six comparison
+    operators in either operand order and either polarity, or the arms of a three-way comparison."""
+    from engine import orderlogic as OL
+    sym = K.sym_of(body)
+    klo, khi = ident(order_core(lo)), ident(order_core(hi))
+    if klo == khi:
+        return set()
+    # for operands (lo, hi): the operator outcomes that imply lo <= hi
+    straight = {("<=", True), ("<", True), ("==", True), (">", False), (">=", False), ("!=", False)}
+    flipped = {(">=", True), (">", True), ("==", True), ("<", False), ("<=", False), ("!=", False)}
+    edges = set()
+    for bi, blk in enumerate(body.blocks):
+        t = blk["term"]
+        if t["t"] != "switch" or blk.get("cleanup"):
+            continue
+        d = strip_deep(sym.operand(t["discr"]))
+        if t.get("dty") == "bool":
+            e = switch_bool_edges(body, bi)
+            if e is None:
+                continue
+            a, truth = OL.atom(d), True
+            while a[0] == "not":
+                a, truth = a[1], not truth
+            if a[0] != "cmp":
+                continue
+            kx, ky = ident(order_core(a[2])), ident(order_core(a[3]))
+            table = straight if (kx, ky) == (klo, khi) else flipped if (kx, ky) == (khi, klo) else None
+            if table is None:
+                continue
+            for val, tb in ((True, e[1]), (False, e[0])):
+                if (a[1], val == truth) in table:
+                    edges.add((bi, tb))
+        elif d[0] == "discr":
+            c = strip_deep(d[1])
+            if not (c[0] == "call" and _info(c).get("name") in ("cmp", "partial_cmp") and len(c[2]) == 2):
+                continue
+            kx, ky = ident(order_core(c[2][0])), ident(order_core(c[2][1]))
+            if (kx, ky) == (klo, khi):
+                good = {"L", "E"}
+            elif (kx, ky) == (khi, klo):
+                good = {"G", "E"}
+            else:
+                continue
+            name = {255: "L", -1: "L", 0: "E", 1: "G"}
+            listed = {name.get(v) for v, _ in t["targets"]}
+            for v, tb in body.switch_edges(bi):
+                outs = {name.get(v)} if v is not None else {"L", "E", "G"} - listed
+                if outs and outs <= good:
+                    edges.add((bi, tb))
+    return edges
+
+
 def check_ranges(ctx, f):
+    from engine import orderlogic as OL
     specs = [("repository::resources::ipres::AddressRange", "min", "max"), ("repository::resources::asres::AsRange", "min", "max")]
     n = 0
     for adt, lo_f, hi_f in specs:
         sites = []
         for bd, bi, si, st in aggregates_of(f, adt):
-            if is_derived(bd):
+            if is_derived(bd) or bd.is_cleanup(bi):
                 continue
             t = K.sym_of(bd).rvalue(st["rv"])
             flds = dict(t[3])
@@ -986,8 +1066,24 @@ def check_ranges(ctx, f):
             a = K.arg_terms(c)
             sites.append((c.body, c.bb, c.where(), a[0], a[1]))
         for bd, bb, where, lo, hi in sites:
+            # a construction inside a closure is read where the closure is handed to its combinator
+            gate = None
+            if "{closure" in bd.name:
+                pv, m = closure_binding(f, bd)
+                owner, lo2 = lift(f, bd, lo)
+                owner2, hi2 = lift(f, bd, hi)
+                if pv is not None and owner is owner2 and owner is pv.body and "{closure" not in owner.name:
+                    for c in owner.calls():
+                        if owner.is_cleanup(c.bb) or not c.is_static:
+                            continue
+                        at = K.arg_terms(c)
+                        if any(x[0] == "closure" and x[1] == bd.name for x in at):
+                            gate = (c, at)
+                    if gate is not None:
+                        bd, bb, lo, hi = owner, gate[0].bb, lo2, hi2
+
             def srcs(t):
-                return {(render(x), x[3].get("bb")) for x in walk(t) if x[0] == "call" and x[3].get("name") in ("from_str", "take_from")}
+                return {(render(x), x[3].get("bb")) for x in walk(t) if x[0] == "call" and x[3].get("name") in _UNTRUSTED_SOURCES}
             slo, shi = srcs(lo), srcs(hi)
             if not (slo | shi):
                 continue
@@ -995,14 +1091,18 @@ def check_ranges(ctx, f):
                 continue        # both bounds computed from one parsed value (single address / prefix)
             n += 1
             rlo, rhi = render(lo), render(hi)
-            sym = K.sym_of(bd)
-            edges = set()
-            for bi, blk in enumerate(bd.blocks):
-                if blk["term"]["t"] == "switch":
-                    e = K.order_literal_edges(bd, sym, bi, "^" + re.escape(rlo) + "$", "^" + re.escape(rhi) + "$")
-                    if e:
-                        edges.update(e)
+            edges = ordered_edges(bd, lo, hi)
             ok = bool(edges) and bb not in bd.reachable(0, removed_edges=edges)
+            if not ok and gate is not None and gate[0].name == "then" and gate[1]:
+                # `(lo <= hi).then(|| Range { .. })`: the closure runs only when the receiver is true
+                a, truth = OL.atom(gate[1][0]), True
+                while a[0] == "not":
+                    a, truth = a[1], not truth
+                if a[0] == "cmp":
+                    pair = (ident(order_core(a[2])), ident(order_core(a[3])))
+                    klo, khi = ident(order_core(lo)), ident(order_core(hi))
+                    ok = klo != khi and ((pair == (klo, khi) and (a[1], truth) in (("<=", True), ("<", True), (">", False), (">=", False))) or
+                                         (pair == (khi, klo) and (a[1], truth) in ((">=", True), (">", True), ("<", False), ("<=", False))))
             ctx.ob("R-GRD", "%s:min<=max[%s]" % (short(root_fn(f, bd.name)), short(adt).split("::")[-1]), ok,
                    "%s builds a %s from parsed/decoded bounds only behind a lower ≤ upper test" % (short(root_fn(f, bd.name)), short(adt)),
                    where=where, detail={"min": rlo, "max": rhi})
